@@ -186,7 +186,9 @@ def m_key_agreement(E, st, args, kwargs):
     return outs
 
 
-def add_natives(reg):
+def add_natives(reg, curve=None):
+    """curve: None = EccKey.curve ranges over all canonical names; a name = every key of the proof is on that curve (the
+    DHKEM functions require all their keys on one curve, so instantiating per curve is exhaustive there)"""
     add_hash_natives(reg)
     add_hkdf(reg)
     reg.models['Crypto.Util.strxor.strxor'] = m_strxor
@@ -194,7 +196,7 @@ def add_natives(reg):
     # ---- ECC key objects: the real class with ghost state.  g_pub = SerializePublicKey(public point) (RFC 9180 7.1.1:
     # SEC1 uncompressed for the NIST curves, RFC 7748 u-coordinate for X25519/X448); _d = private scalar or None.
     # has_private() is the real method (inlined).
-    reg.add(ClassContract(ECCKEY, fields={'curve': CURVES, '_d': 'any|none', 'g_pub': 'bytes'},
+    reg.add(ClassContract(ECCKEY, fields={'curve': CURVES if curve is None else ('const', curve), '_d': 'any|none', 'g_pub': 'bytes'},
                           doc='EccKey (C05: curve is a canonical name; the public point matches the private scalar)'))
     why_key = 'ECC key objects (C05/C08 contracts; bounded: bounded/ec.py key generation, export/import round trips)'
     reg.add(Contract(ECCKEY + '.public_key', params={}, result=KEY, modifies=[],
@@ -325,7 +327,7 @@ def add_hpke(reg):
                               'base_nonce': 'result[1] == %sks_base_nonce(%s)' % (R, ks_args),
                               'exporter_secret': 'result[2] == %sks_exporter_secret(%s, self._Nh)' % (R, ks_args),
                               'lengths': 'len(result[0]) == self._Nk and len(result[1]) == 12 and len(result[2]) == self._Nh'},
-                     opaque=[R + 'labeled_extract', R + 'labeled_expand']))
+                     result='tuple(bytes,bytes,bytes)', opaque=[R + 'labeled_extract', R + 'labeled_expand']))
     # ---- DHKEM (RFC 9180 4.1): Encap / AuthEncap / Decap / AuthDecap.  A private key is designated in DH(kem, sk, pk) by the
     # serialization of its own public key, so the statement about a freshly generated ephemeral key is made through enc
     kem = R + 'kem_of_curve(receiver_key.curve)'
@@ -343,7 +345,7 @@ def add_hpke(reg):
     E_ = 'result[1]'
     reg.add(Contract(HC + '._encap',
                      params={'receiver_key': KEY, 'kem_id': 'int[0..65535]', 'hashmod': HASHMOD, 'sender_key': KEY + '|none', 'eph_key': KEY + '|none'},
-                     requires=same_curve + ['sender_key is None or sender_key.has_private()',
+                     requires=same_curve + ['receiver_key.curve in %r' % (HPKE_CURVES,), 'sender_key is None or sender_key.has_private()',
                                             'eph_key is None or (eph_key.has_private() and eph_key.curve == receiver_key.curve)'],
                      # 7.1.4: abort when a DH result is invalid; with a generated ephemeral key the condition is about fresh entropy,
                      # hence `only_if` + the two `dh_ok` postconditions (together: raises iff, for a given eph_key)
@@ -356,7 +358,7 @@ def add_hpke(reg):
                                       + secret('%s + %s' % (DH(E_, pkR), DH(pkS, pkR)), '%s + %s + %s' % (E_, pkR, pkS)),
                               'dh_ok': 'not ' + bad(E_, pkR), 'dh_ok_auth': 'sender_key is not None ==> not ' + bad(pkS, pkR),
                               'len': 'len(result[0]) == hashmod.digest_size'},
-                     opaque=[R + 'extract_and_expand']))
+                     result='tuple(bytes,bytes)', opaque=[R + 'extract_and_expand']))
     pkE = '%spk_canon(%s, enc)' % (R, kem)
     reg.add(Contract(HC + '._decap',
                      params={'enc': 'bytes', 'receiver_key': KEY, 'kem_id': 'int[0..65535]', 'hashmod': HASHMOD, 'sender_key': KEY + '|none'},
@@ -369,7 +371,60 @@ def add_hpke(reg):
                               'auth': 'sender_key is not None ==> result == '
                                       + secret('%s + %s' % (DH(pkR, pkE), DH(pkR, pkS)), 'enc + %s + %s' % (pkR, pkS)),
                               'len': 'len(result) == hashmod.digest_size'},
-                     opaque=[R + 'extract_and_expand']))
+                     result='bytes', opaque=[R + 'extract_and_expand']))
+    # ---- set-up: __init__ (SetupBaseS/R, SetupPSK*, SetupAuth*, SetupAuthPSK* of 5.1.1 - 5.1.4) and new()
+    FIELDS = ['enc', '_curve', '_aead_id', '_mode', '_kem_id', '_kdf_id', '_hashmod', '_Nk', '_Nn', '_Nt', '_Nh', '_encrypt',
+              '_sequence', '_max_sequence', '_key', '_base_nonce', '_export_secret']
+
+    def setup(o, mode, psk_id, psk, info):
+        """clauses describing a freshly set-up context `o`"""
+        kem_ = '%s._kem_id' % o
+        sending = 'receiver_key._d is None'
+        pkE_ = '%spk_canon(%s, enc)' % (R, kem_)
+        cases = {   # (guard, dh, kem_context)
+            'base_S': ('%s and sender_key is None' % sending, DH('%s.enc' % o, pkR), '%s.enc + %s' % (o, pkR)),
+            'auth_S': ('%s and sender_key is not None' % sending, '%s + %s' % (DH('%s.enc' % o, pkR), DH(pkS, pkR)),
+                       '%s.enc + %s + %s' % (o, pkR, pkS)),
+            'base_R': ('not (%s) and sender_key is None' % sending, DH(pkR, pkE_), 'enc + ' + pkR),
+            'auth_R': ('not (%s) and sender_key is not None' % sending, '%s + %s' % (DH(pkR, pkE_), DH(pkR, pkS)),
+                       'enc + %s + %s' % (pkR, pkS))}
+        out = {'valid': 'valid(%s)' % o, 'seq0': '%s._sequence == 0' % o, 'role': '%s._encrypt == (%s)' % (o, sending),
+               'aead': '%s._aead_id == aead_id' % o, 'mode': '%s._mode == %s' % (o, mode),
+               'kem': '%s == %s' % (kem_, kem), 'enc_R': 'not (%s) ==> %s.enc == enc' % (sending, o)}
+        for nm, (guard, dh, ctx) in cases.items():
+            ks = ('%skdf_hash(%s._kdf_id), %s, %s, %sdhkem_secret(%s, %s, %s), %s, %s, %s'
+                  % (R, o, _suite(o), mode, R, kem_, dh, ctx, info, psk, psk_id))
+            out['key_' + nm] = '(%s) ==> %s._key == %sks_key(%s, %saead_nk(aead_id))' % (guard, o, R, ks, R)
+            out['base_nonce_' + nm] = '(%s) ==> %s._base_nonce == %sks_base_nonce(%s)' % (guard, o, R, ks)
+            out['exporter_' + nm] = ('(%s) ==> %s._export_secret == %sks_exporter_secret(%s, %skdf_nh(%s._kdf_id))'
+                                     % (guard, o, R, ks, R, o))
+        return out
+
+    def refusals(mode, psk_id, psk):
+        sending = 'receiver_key._d is None'
+        psk_ok = '%spsk_inputs_ok(%s, %s, %s)' % (R, mode, psk, psk_id)
+        supported = 'receiver_key.curve in %r' % (HPKE_CURVES,)
+        static_bad = ('not %s or not %s or ((%s) and enc is not None) or (not (%s) and enc is None)'
+                      % (psk_ok, supported, sending, sending))
+        pkE_ = '%spk_canon(%s, enc)' % (R, kem)
+        pk_bad = '%s and %s and not (%s) and enc is not None and not %spk_ok(%s, enc)' % (psk_ok, supported, sending, R, kem)
+        dh_bad_R = ('not (%s) and enc is not None and %s and %spk_ok(%s, enc) and (%s or (sender_key is not None and %s))'
+                    % (sending, supported, R, kem, bad(pkR, pkE_), bad(pkR, pkS)))
+        return static_bad, pk_bad, dh_bad_R, sending
+    one_private = 'sender_key is None or (sender_key.curve == receiver_key.curve and sender_key.has_private() != receiver_key.has_private())'
+    static_bad, pk_bad, dh_bad_R, sending = refusals('mode', 'psk_pair[0]', 'psk_pair[1]')
+    ens = setup('self', 'mode', 'psk_pair[0]', 'psk_pair[1]', 'info')
+    ens['refused'] = 'not (%s) and not (%s)' % (static_bad, dh_bad_R)
+    reg.add(Contract(HC + '.__init__',
+                     params={'receiver_key': KEY, 'enc': 'bytes|none', 'sender_key': KEY + '|none', 'psk_pair': 'tuple(bytes,bytes)',
+                             'info': 'bytes', 'aead_id': 'int[1..3]', 'mode': 'int[0..3]'},
+                     options={'assume_valid': False}, requires=[one_private],
+                     # invalid PSK / key / enc combinations are refused; a DH failure of a freshly generated ephemeral key
+                     # (sender) cannot be named at entry, hence only_if + the `refused` postcondition
+                     raises={'DeserializeError': ('iff', pk_bad),
+                             'ValueError': ('only_if', '(%s) or (%s) or (%s)' % (static_bad, dh_bad_R, sending))},
+                     ensures=ens, modifies=['self.' + f for f in FIELDS],
+                     opaque=[R + 'labeled_extract', R + 'labeled_expand', R + 'extract_and_expand']))
     # ---- C15 history / C11: the sequence number and the nonce
     seq_nonce = '%snonce(self._base_nonce, old(self._sequence))' % R
     reg.add(Contract(HC + '._new_cipher', params={},
@@ -403,11 +458,19 @@ def add_hpke(reg):
     return reg
 
 
-def registry():
+def registry(curve=None):
     reg = base_registry()
-    add_natives(reg)
+    add_natives(reg, curve)
     add_hpke(reg)
     return reg
+
+
+def registry_for(curve):
+    return lambda: registry(curve)
+
+
+def _slug(curve):
+    return curve.replace('NIST ', '').replace('-', '').replace('Curve', 'X')
 
 
 def units(prop, tier):
